@@ -149,7 +149,9 @@ def one_case(job):
     if rc != 0:
         return dict(error="pre driver rc=%s %s" % (rc, err[-200:]))
     # the interchange file
-    num = lambda v: conc[v]
+    # EIP-3076 numbers are decimal strings; a case marked "pad" writes some of them with a leading zero ("010" is ten), over a value table
+    # (0, 8, 10, 12) chosen so that another reading of the same string (octal: eight) is a value of the table too and shows as a lowered record
+    num = (lambda v: "0" + conc[v] if v in (0, 2) else conc[v]) if case.get("pad") else (lambda v: conc[v])
     ents0 = case["file"]
     data = []
     if idx % 2 == 0:   # repeated entries for the key
@@ -252,9 +254,12 @@ def run_c10(tier, seed):
             return b["s"] >= 0 and b["t"] >= 0 and b["ps"] >= 0 and any(e["slot"] < b["ps"] or e["att"]["t"] < b["t"] for e in c["file"])
         bigcases = [dict(c, big=True) for c in cases if c["meta"] == "ok" and older(c)][:4 if tier == "quick" else 24]
         cases = cases + bigcases
+        concs.append(("padded-decimal", ["0", "8", "10", "12"] + concs[0][1][4:]))
         jobs = []
         for i, c in enumerate(cases):
             cname, conc = concs[i % len(concs)]
+            if cname == "padded-decimal":
+                c = dict(c, pad=True)
             jobs.append((i, c, conc, pubs, wd))
         with ThreadPoolExecutor(max_workers=NCPU) as ex:
             results = list(ex.map(one_case, jobs))
